@@ -86,8 +86,22 @@ def gen_case(rng):
             return {'model': m, 'mutation': kind, 'route': route}
     return {'model': base, 'mutation': 'none'}
 
+def added_twice_corpus():
+    """oracle-only: BOTH definitions arrive as additional items (potable --add-item twice): the same new pair twice, in two spellings,
+    in the other species order; a new formula signature twice"""
+    out = []
+    for k, extras in enumerate([[['Pair', 'Qx-Qy', 'as.constant 1.0'], ['Pair', 'Qx-Qy', 'as.constant 2.0']],
+                                [['Pair', 'Qx-Qy', 'as.constant 1.0'], ['Pair', 'Qx - Qy', 'as.constant 2.0']],
+                                [['Pair', 'Qx-Qy', 'as.constant 1.0'], ['Pair', 'Qy-Qx', 'as.constant 2.0']],
+                                [['Potential-Form', 'qf(r,A)', 'A'], ['Potential-Form', 'qf(r, A)', 'A*2']]]):
+        out.append({'model': sc.gen_model(random.Random(2000 + k)), 'mutation': 'added_twice', 'route': 'additional_twice', 'extras': extras})
+    return out
+
 def run_impl(case):
     from atsim.potentials.config import Configuration, ConfigParser, ConfigParserOverrideTuple as O
+    if case.get('route') == 'additional_twice':
+        extra = [O(a, b, c) for a, b, c in case['extras']]
+        return sc.classify(lambda: Configuration().read_from_parser(ConfigParser(io.StringIO(sc.render(case['model'])), additional=extra)) and 'table')
     if case.get('route') == 'additional':
         m = copy.deepcopy(case['model']); extra = []
         for s, es in m['sections']:
@@ -120,7 +134,7 @@ def correspond(ctx):
     return {'evaluations': len(cases) + istats['ini_files'] + tstats['store_text_files'], 'cases': cases, 'nontrivial': core.distinct_count([c for c in cases if c['mutation'] != 'none']),
             'rule': 'generated pair/EAM/FS models, unmutated or with one entry duplicated in one of %d ways (same line, whitespace variants of A-B / A->B / f(r,a) / species / options, reversed pair, repeated section header, '
                     'repeated or whitespace-variant table-form name, table form named like a formula or like a built-in form, formula label with other parameters); verdict accept/reject compared; non-trivial = mutated; text level: parse_ini (model/Ini.v) vs the raw parser of the repository on generated files with repeated sections and keys in several spellings' % (len(MUTATIONS) - 1),
-            'samples': cases[:2], 'distribution': dist, 'disagreements': dis[:20], 'oracle_cases': cases}
+            'samples': cases[:2], 'distribution': dist, 'disagreements': dis[:20], 'oracle_cases': cases + added_twice_corpus()}
 
 def oracle(case):
     if case.get('kind') in ('ini', 'store_text'): return []      # text-level correspondence cases: no verdict of this property's statement
@@ -132,6 +146,7 @@ def oracle(case):
             % (case['mutation'], 'silently accepted' if got[0] == 'Ok' else 'answered with an internal error ' + got[1])]
 
 def search_cases(rng, n):
+    for c in added_twice_corpus(): yield c
     for _ in range(n // 3): yield gen_case(rng)
 def finding_for(case, fails): return None
 def replay_finding(f): return False
